@@ -31,6 +31,9 @@ func (in In) B(i int) []byte {
 	if i >= len(in) {
 		return nil
 	}
+	if strings.HasPrefix(in[i], "s:") { // a text field read as bytes
+		return []byte(in[i][2:])
+	}
 	b, _ := hex.DecodeString(strings.TrimPrefix(in[i], "h:"))
 	return b
 }
